@@ -192,7 +192,11 @@ class SymbolicRegressor(RegressorMixin, BaseEstimator):
     # pylint: disable=attribute-defined-outside-init
     def _get_archipelago(self, X, y, n_processes):
         self.component_generator = ComponentGenerator(X.shape[1])
-        for operator in self.operators:
+        operators = self.operators
+        if isinstance(operators, (set, frozenset)):
+            # set iteration order of strings depends on PYTHONHASHSEED
+            operators = sorted(operators)
+        for operator in operators:
             self.component_generator.add_operator(operator)
 
         self.crossover = AGraphCrossover()
